@@ -1,6 +1,6 @@
 """C02 — per-bus FIFO processing order."""
 from .. import scenlib as S
-from ._common import flat, mk, t_tree
+from ._common import flat, matrix_jobs, mk, t_tree
 
 META = dict(
     explanation='Per bus, the order of first handler entry is compared with the order of accepted dispatch() calls on that bus '
@@ -31,4 +31,5 @@ def jobs(tier):
             mk('C02', 'x2/independent', S.two_bus_independent(('A', 'B')), max_paths=8000),
             mk('C02', 'child/yield_await/k1', S.child('yield_await', k=1), max_paths=8000),
         ]
+    out += matrix_jobs('C02', 'm1', tier)
     return flat(out)
